@@ -220,6 +220,64 @@ pub fn check(ctx: &mut Ctx) {
         }
     }
 
+    // ---- (e) aggregates of integers whose total leaves the i64 range (or the 2^53 range of exact
+    // doubles): the result may be a float, but it must be the true total up to double rounding —
+    // "never a wrapped, saturated or sign-stripped value"
+    let nb = ctx.budget(300, 20000);
+    for _ in 0..nb {
+        let mut r = ctx.rng.fork();
+        let k = 2 + r.below(5);
+        let big = [4611686018427387904i64, 4611686018427388928, 9223372036854775807, 4000000000000000000, 9000000000000000000, 9007199254740993, 1152921504606846976, 3];
+        let sign = if r.chance(30) { -1i64 } else { 1 };
+        let vals: Vec<i64> = (0..k).map(|_| { let v = *r.pick(&big); if r.chance(15) { -v } else { sign * v } }).collect();
+        let style = r.below(3);
+        let mut input = String::new();
+        for (i, v) in vals.iter().enumerate() {
+            match style {
+                0 => input.push_str(&format!("{{\"v\":{},\"h\":\"{}\"}}\n", v, i % 2)),
+                1 => input.push_str(&format!("v={} h={}\n", v, i % 2)),
+                _ => input.push_str(&format!("took v={} units h={}\n", v, i % 2)),
+            }
+        }
+        let extract = match style {
+            0 => "json",
+            1 => "logfmt",
+            _ => "parse \"v=* \" as v",
+        };
+        let q = format!("* | {} | sum(v) as s, avg(v) as a, max(v) as hi, min(v) as lo", extract);
+        let key = ckey(&q, input.as_bytes());
+        let c = run_both(ctx, &q, input.as_bytes());
+        let row = match canon::parse(String::from_utf8_lossy(&c.imp.stdout).trim_end()) {
+            Ok(J::Arr(rows)) if rows.len() == 1 => rows[0].clone(),
+            _ => J::Null,
+        };
+        let getf = |name: &str| match &row {
+            J::Obj(kvs) => kvs.iter().find(|kv| kv.0 == name).and_then(|kv| match &kv.1 { J::Int(i) => Some(*i as f64), J::Float(f) => Some(*f), _ => None }),
+            _ => None,
+        };
+        let total: i128 = vals.iter().map(|v| *v as i128).sum();
+        // sums are accumulated in doubles: the error bound of a floating-point sum is relative to the
+        // sum of the magnitudes (cancellation may lose small addends), not to the result
+        let mag: f64 = vals.iter().map(|v| (*v as f64).abs()).sum();
+        let close = |got: Option<f64>, want: f64| got.map(|g| (g - want).abs() <= 1e-9 * want.abs().max(1.0)).unwrap_or(false);
+        let close_sum = |got: Option<f64>, want: f64, scale: f64| got.map(|g| (g - want).abs() <= 1e-9 * scale.max(1.0)).unwrap_or(false);
+        let ok = close_sum(getf("s"), total as f64, mag)
+            && close_sum(getf("a"), total as f64 / k as f64, mag / k as f64)
+            && close(getf("hi"), *vals.iter().max().unwrap() as f64)
+            && close(getf("lo"), *vals.iter().min().unwrap() as f64);
+        let info = serde_json::json!({"query": q, "input": input, "true_total": total.to_string()});
+        if !ok {
+            ctx.case("pipeline-big", &key, "viol", serde_json::json!({"class": "", "what": "an aggregate of large integers is not the true value up to double rounding (wrapped, saturated or sign-stripped?)", "values": vals, "got": format!("{:?}", row), "case": info}));
+            continue;
+        }
+        ctx.case("pipeline-big", &key, "pass", info.clone());
+        match compare(&c, true) {
+            F::Agree => ctx.case("pipeline-big-model", &key, "pass", info),
+            F::Skip(w) => ctx.case("pipeline-big-model", "", "skip", serde_json::json!({"why": w})),
+            F::Disagree(d) => ctx.case("pipeline-big-model", &key, "fdis", serde_json::json!({"what": d, "case": info})),
+        }
+    }
+
     // ---- soft-float and number formatting against the hardware / Rust's formatter (F-level)
     let nf = ctx.budget(3000, 300000);
     for _ in 0..nf {
